@@ -1058,12 +1058,16 @@ def docs_cases(seed, n):
                 lines.append("type %s struct {" % name)
                 for fi in range(1 + rng.randrange(3)):
                     fd = before("\t", allow_trailing=False)
-                    ln = "\tf%d int" % fi
+                    # every form of field declaration (named, grouped, embedded, pointer, qualified, instantiated,
+                    # tagged, array, function-typed, nested struct); `inner` = Field nodes inside the field's type
+                    text, inner = rng.choice(FIELD_FORMS)
+                    ln = "\t" + text.replace("#", "%s%d" % (name, fi))
                     if rng.random() < 0.4:
                         cid[0] += 1
                         ln += " // e%d" % cid[0]
                         fd = fd + ["// e%d" % cid[0]]
                     expected.append(("Field", fd))
+                    expected.extend([("Field", [])] * inner)
                     lines.append(ln)
                 lines.append("}")
             if rng.random() < 0.4:
@@ -1076,6 +1080,12 @@ def docs_cases(seed, n):
             expected = [(t, [x.replace("\n", "\r\n") + ("\r" if x.startswith("//") else "") for x in d]) for t, d in expected]
         cases.append(Case(src, "F-docs", expected=expected))
     return cases
+
+
+FIELD_FORMS = [("f# int", 0), ("f# int", 0), ("f#, g# string", 0), ("E#", 0), ("*E#", 0), ("pkg.E#", 0), ("*pkg.E#", 0),
+               ("L#[int]", 0), ("P#[string, int]", 0), ("pkg.B#[int]", 0), ("A# [4]int", 0), ("f# int `tag`", 0),
+               ("L#[int] `tag`", 0), ("E# `tag`", 0), ("f# func(int) bool", 2), ("f# struct { x int }", 1), ("f# []map[string]*T", 0),
+               ("f# chan<- int", 0), ("f# [n]int", 0), ("f# []int", 0)]
 
 
 _DOC_TAGS = ("File", "FuncDecl", "DeclVar", "DeclConst", "DeclType", "VarSpec", "ConstSpec", "TypeSpec", "Field")
@@ -1188,3 +1198,53 @@ def layout_injection_cases(snippets=None):
                     continue
                 out.append(Case(v, "F-layout-inject", prog=si, style="inject"))
     return out
+
+
+# ---------------------------------------------------------------- types in every position (C03)
+TYPE_ELEMS = [
+    ("int", "(Ident s:int)"), ("*T", "(TypePointer (Ident s:T))"), ("[]int", "(TypeSlice (Ident s:int))"),
+    ("map[K]V", "(TypeMap (Ident s:K) (Ident s:V))"), ("pkg.T", "(Selector (Ident s:pkg) (Ident s:T))"),
+    ("[3]int", "(TypeArray (BasicLit l:N s:3) (Ident s:int))"), ("struct{}", "(TypeStruct)"),
+    ("func(int) bool", "(FuncType (FieldList) (FieldList (Field (List) (Ident s:int) (None))) (FieldList (Field (List) (Ident s:bool) (None))))"),
+]
+TYPE_POSITIONS = [
+    "var _ {}", "var _ = ({})(nil)", "var _ = make({}, 1)", "var _ = new({})", "var _ = []{}{{}}", "var _ = x.({})",
+    "func _(a {}) {{}}", "var _ = map[string]{}{{}}", "type _ struct {{ f {} }}", "var _ = func({}) {{}}",
+    "func _() {{ for range make({}) {{}} }}", "func _() {{ if x := ({})(nil); x != nil {{}} }}", "type _ interface {{ m({}) {} }}",
+]
+
+
+def chan_nest(dirs, elem):
+    """source and derivation of the channel type with the given directions (0 chan, 1 chan<-, 2 <-chan), outermost first.
+    The spec: `<-` associates with the leftmost chan possible, so a bidirectional channel of a receive-only
+    channel needs parentheses (the tree keeps them as a Paren node)."""
+    src, shape = elem
+    for i in range(len(dirs) - 1, -1, -1):
+        d = dirs[i]
+        if d == 0 and i + 1 < len(dirs) and dirs[i + 1] == 2:
+            src, shape = "(" + src + ")", "(Paren " + shape + ")"
+        src = ["chan ", "chan<- ", "<-chan "][d] + src
+        shape = "(TypeChannel d:%d %s)" % (d, shape)
+    return src, shape
+
+
+def type_position_cases():
+    import itertools
+    out = []
+    for n in (1, 2, 3):
+        for dirs in itertools.product((0, 1, 2), repeat=n):
+            for ei, elem in enumerate(TYPE_ELEMS):
+                if n == 3 and ei not in (0, 1, 7):
+                    continue
+                src, shape = chan_nest(dirs, elem)
+                for pos in TYPE_POSITIONS:
+                    out.append(Case("package p\n" + pos.format(*([src] * pos.count("{}"))) + "\n", "F-type-positions", expected=shape, note=src))
+    return out
+
+
+def oracle_type_position(c, line, toks):
+    if not line.startswith("OK "):
+        return "valid Go rejected: " + line[:80]
+    if c.expected not in proj_shape(line):
+        return "the type %s does not have its derivation %s in this position" % (c.note, c.expected)
+    return None
